@@ -56,6 +56,219 @@ def fn_torch_layers(items):
     return circ.run_layers('C10', 'torch', items)
 
 
+# ------------------------------------------------------------------ histories: generator replaced between compiles
+_OTHER = {('py', 2): 0, ('py', 3): 0, ('torch', 2): 2, ('torch', 3): 4}     # a Hadamard on qubit 0 in each alphabet
+_OLD = {1: [('Y', 2), ('X', 0)], 2: [('XZ', 2), ('YY', 0)]}
+
+
+def regen_items(tier):
+    out = []
+    for tag in ('py', 'torch'):
+        for N, qs in ((2, (0, 1)), (2, (1,)), (3, (0, 2)), (3, (2,))):
+            n = len(qs)
+            strs = [''.join(t) for t in itertools.product('IXYZ', repeat=n) if set(t) != {'I'}]
+            for go, po in _OLD[n]:
+                for gn in strs:
+                    for pn in (0, 2):
+                        if (gn, pn) != (go, po):
+                            out.append([tag, N, list(qs), go, po, gn, pn])
+    return out
+
+
+def fn_regenerate(items):
+    """item = [tag, N, qubits, old string, old sign, new string, new sign]: a generator gate G (alone, and in a circuit
+    G, H(0), G' with an overlapping Hadamard and a second generator gate) is compiled, its generator is REPLACED with
+    set_generator (public), and the gate / circuit is compiled again (also: on a copy of the compiled circuit, the
+    original staying as it was).  Afterwards forward must be the reference action with the NEW generator, backward
+    its inverse, and backward(forward(x)) == x == forward(backward(x)) on the whole Pauli group and on signed states."""
+    import numpy as np
+    from .. import ref, lib
+    from ..core import V
+    n = nt = 0
+    viol = []
+    for item in items:
+        tag, N, qs, go, po, gn, pn = item
+        pk = circ.PKS[tag]
+        P = lib.P if tag == 'py' else lib.tP
+        Gate = lib.pci.CliffordGate if tag == 'py' else lib.torch_mods()['tci'].CliffordGate
+        A = circ.alphabet(tag, N)
+        other = A[_OTHER[(tag, N)]]
+        perm_old = circ.perm_rot(ref.str_to_g(circ.full_string(go, qs, N)), po, N)
+        perm_new = circ.perm_rot(ref.str_to_g(circ.full_string(gn, qs, N)), pn, N)
+        ins = [i for i in pk.inputs(N) if not getattr(i, 'view', False)]
+
+        def mkgate(gstr, ph):
+            g = Gate(*qs)
+            g.set_generator(P(ref.str_to_g(gstr), ph))
+            return g
+
+        def judge(obj, perm, sig, what):
+            """forward = perm, backward = perm^-1, both round trips, on fresh objects."""
+            nonlocal n, nt
+            inv = circ.inverse_perm(perm)
+            for inp in ins:
+                for first, second, pf in (('forward', 'backward', perm), ('backward', 'forward', inv)):
+                    x = pk.fresh(inp)
+                    try:
+                        getattr(obj, first)(x)
+                        o1 = circ.observe(pk, x, inp)
+                        getattr(obj, second)(x)
+                        o2 = circ.observe(pk, x, inp)
+                    except Exception as e:
+                        viol.append(V('C10/regenerate/%s/%s/raises-%s' % (tag, sig, type(e).__name__), item, '%s: %s then %s raised %s' % (what, first, second, e)))
+                        return
+                    n += 2
+                    nt += 2
+                    if not circ.agrees_with_ref(o1, inp, pf):
+                        viol.append(V('C10/regenerate/%s/%s/%s-not-reference/%s' % (tag, sig, first, inp.kind), item,
+                                      '%s: %s on %s is not the reference action: %s' % (what, first, inp.name, circ.first_diff(o1, *circ.ref_image(inp, pf), inp))))
+                        return
+                    if not circ.same(o2, inp.gs, inp.ps, inp.r):
+                        viol.append(V('C10/regenerate/%s/%s/%s-after-%s/%s' % (tag, sig, second, first, inp.kind), item,
+                                      '%s: %s after %s does not restore %s: %s' % (what, second, first, inp.name, circ.first_diff(o2, inp.gs, inp.ps, inp))))
+                        return
+        label = '%s N=%d generator gate on %s: %s replaced by %s' % (tag, N, qs, ref.g_to_str(ref.str_to_g(go), po), ref.g_to_str(ref.str_to_g(gn), pn))
+        try:
+            # (1) the gate alone
+            g = mkgate(go, po)
+            g.compile()
+            g.set_generator(P(ref.str_to_g(gn), pn))
+            g.compile()
+            judge(g, perm_new, 'gate/compile-set-compile', label + '; gate.compile(), set_generator, gate.compile()')
+            g = mkgate(go, po)
+            x = pk.fresh(ins[0])
+            g.forward(x)
+            g.backward(x)
+            g.set_generator(P(ref.str_to_g(gn), pn))
+            judge(g, perm_new, 'gate/use-set-use', label + '; forward, backward, set_generator')
+            # (2) inside circuits: G, H(0), G2 (G2 = a second gate object with the OLD generator, untouched)
+            for cls in pk.classes:
+                def build():
+                    c = pk.new_circuit(cls, N)
+                    g1, h, g2 = mkgate(go, po), other.mk(pk), mkgate(go, po)
+                    for y in (g1, h, g2):
+                        c.take(y)
+                    return c, g1
+                full_old = perm_old[other.perm[perm_old]] if False else None
+                # reference: apply g1, then other, then g2 -> composition of permutations in application order
+                def comp(*perms):
+                    out = circ.ident(N)
+                    for q in perms:
+                        out = q[out]
+                    return out
+                ref_new = comp(perm_new, other.perm, perm_old)
+                ref_old = comp(perm_old, other.perm, perm_old)
+                c, g1 = build()
+                pk.compile(c, N)
+                g1.set_generator(P(ref.str_to_g(gn), pn))
+                pk.compile(c, N)
+                judge(c, ref_new, '%s/compile-set-compile' % cls, label + '; circuit [G, %s, G_old] compiled, G.set_generator, compiled again' % other.name)
+                if pk.has(cls, 'copy'):
+                    c, g1 = build()
+                    pk.compile(c, N)
+                    c2 = c.copy()
+                    g1c = circ.walk(c2)[0][0].gates[0]
+                    g1c.set_generator(P(ref.str_to_g(gn), pn))
+                    pk.compile(c2, N)
+                    judge(c2, ref_new, '%s/compiled-copy-set-compile' % cls, label + '; copy of the compiled circuit [G, %s, G_old], G.set_generator on the copy, copy compiled' % other.name)
+                    judge(c, ref_old, '%s/original-of-regenerated-copy' % cls, label + '; the ORIGINAL compiled circuit after its copy got a new generator and was compiled')
+                    pk.compile(c, N)
+                    judge(c, ref_old, '%s/original-recompiled-after-copy-regenerated' % cls, label + '; the ORIGINAL compiled again after its copy got a new generator')
+        except Exception as e:
+            viol.append(V('C10/regenerate/%s/harness-path-raises-%s' % (tag, type(e).__name__), item, '%s raised %s: %s' % (label, type(e).__name__, e)))
+    return {'n': n, 'nt': nt, 'viol': viol}
+
+
+# ------------------------------------------------------------------ clifford_rotation_gate(generator, qubits=<container>)
+_QGENS = [('XIY', [0, 1, 2]), ('IZZ', [0, 1, 2]), ('ZZ', [1, 2]), ('XY', [0, 2]), ('Y', [1]), ('ZX', [0, 1]), ('YZ', [2, 3]), ('XIZ', [1, 2, 3])]
+
+
+def qformat_items():
+    out = []
+    for tag in ('py', 'torch'):
+        for N in (3, 4):
+            gens = [k for k, (gs_, qs) in enumerate(_QGENS) if max(qs) < N]
+            for a in gens:
+                for b in gens:
+                    out.append([tag, N, a, b])
+    return out
+
+
+def fn_qubit_formats(items):
+    """item = [tag, N, a, b]: two rotation gates built with clifford_rotation_gate(generator, qubits) where `qubits` is
+    handed over as list / tuple / numpy int64 array / numpy int32 array / range / (torch) long tensor; both gates are
+    taken by a circuit (plain and compiled).  The container type must not matter: layer structure as for plain ints,
+    forward = reference product, backward = inverse, both round trips (whole Pauli group + signed states)."""
+    import numpy as np
+    from .. import ref, lib
+    from ..core import V
+    n = nt = 0
+    viol = []
+    for item in items:
+        tag, N, a, b = item
+        pk = circ.PKS[tag]
+        P = lib.P if tag == 'py' else lib.tP
+        ctor = lib.pc.clifford_rotation_gate if tag == 'py' else lib.torch_mods()['tc'].clifford_rotation_gate
+        forms = [('list', list), ('tuple', tuple), ('ndarray-int64', lambda q: np.array(q, dtype=np.int64)), ('ndarray-int32', lambda q: np.array(q, dtype=np.int32)),
+                 ('range', lambda q: range(q[0], q[-1] + 1) if list(range(q[0], q[-1] + 1)) == list(q) else list(q))]
+        if tag == 'torch':
+            t = lib.torch_mods()['torch']
+            forms.append(('torch-long-tensor', lambda q: t.tensor(q, dtype=t.long)))
+        ins = [i for i in pk.inputs(N) if not getattr(i, 'view', False)][:3]
+        specs = [(_QGENS[a][0], 0, _QGENS[a][1]), (_QGENS[b][0], 2, _QGENS[b][1])]
+        perms = [circ.perm_rot(ref.str_to_g(circ.full_string(gs_, qs, N)), ph, N) for gs_, ph, qs in specs]
+        perm = perms[1][perms[0]]
+        inv = circ.inverse_perm(perm)
+        overlap = bool({q for ch, q in zip(specs[0][0], specs[0][2]) if ch != 'I'} & {q for ch, q in zip(specs[1][0], specs[1][2]) if ch != 'I'})
+        for fname, conv in forms:
+            for cls in pk.classes:
+                for compiled in (False, True):
+                    sig = 'C10/qubit-container/%s/%s/%s%s' % (tag, fname, cls, ',compiled' if compiled else '')
+                    what = '%s N=%d: clifford_rotation_gate(%s, qubits=%s %s) then clifford_rotation_gate(-%s, qubits=%s %s) in a %s%s' % (
+                        tag, N, specs[0][0], fname, specs[0][2], specs[1][0], fname, specs[1][2], cls, ' (compiled)' if compiled else '')
+                    try:
+                        c = pk.new_circuit(cls, N)
+                        for gs_, ph, qs in specs:
+                            c.take(ctor(P(ref.str_to_g(gs_), ph), conv(list(qs))))
+                        nl = len(circ.walk(c)[0])
+                        if compiled:
+                            pk.compile(c, N)
+                    except Exception as e:
+                        if isinstance(e, TypeError) and fname != 'ndarray-int64':
+                            continue      # this container type is refused by the package (pyclifford indexes the argument with an array): nothing is claimed
+                        viol.append(V(sig + '/raises-%s' % type(e).__name__, item, '%s raised %s: %s' % (what, type(e).__name__, e)))
+                        continue
+                    if nl != (2 if overlap else 1):
+                        viol.append(V(sig + '/layers', item, '%s: %d layers, gates %s overlap -> expected %d' % (what, nl, 'do' if overlap else 'do not', 2 if overlap else 1)))
+                        continue
+                    bad = False
+                    for inp in ins:
+                        for first, second, pf in (('forward', 'backward', perm), ('backward', 'forward', inv)):
+                            x = pk.fresh(inp)
+                            try:
+                                getattr(c, first)(x)
+                                o1 = circ.observe(pk, x, inp)
+                                getattr(c, second)(x)
+                                o2 = circ.observe(pk, x, inp)
+                            except Exception as e:
+                                viol.append(V(sig + '/raises-%s' % type(e).__name__, item, '%s: %s then %s raised %s' % (what, first, second, e)))
+                                bad = True
+                                break
+                            n += 2
+                            nt += 2
+                            if not circ.agrees_with_ref(o1, inp, pf):
+                                viol.append(V(sig + '/%s-not-reference' % first, item, '%s: %s on %s: %s' % (what, first, inp.name, circ.first_diff(o1, *circ.ref_image(inp, pf), inp))))
+                                bad = True
+                                break
+                            if not circ.same(o2, inp.gs, inp.ps, inp.r):
+                                viol.append(V(sig + '/%s-after-%s' % (second, first), item, '%s: %s after %s does not restore %s: %s' % (what, second, first, inp.name, circ.first_diff(o2, inp.gs, inp.ps, inp))))
+                                bad = True
+                                break
+                        if bad:
+                            break
+    return {'n': n, 'nt': nt, 'viol': viol}
+
+
 def legs(tier, for_replay=False):
     quick = tier == 'quick'
     if not for_replay:
@@ -116,5 +329,14 @@ def legs(tier, for_replay=False):
     out.append(Leg('torch_gates', fn_torch_gates, tg, chunk=2, timeout=3000,
                    bound='torchclifford: generator / map gates on ascending tuples (reduced strides), clifford_rotation_gate'))
     tl = circ.disjoint_tuples('torch', 3, 2)
+    ri = regen_items(tier)
+    out.append(Leg('regenerate', fn_regenerate, ri, chunk=4, exhaustive=False, supplementary=True, timeout=3000,
+                   bound='both packages, N=2,3: a generator gate on (0,1) / (1,) / (0,2) / (2,) with 2 old generators x every other signed generator on those qubits (%d cases): gate and circuits [G, H(0), G_old] '
+                         '(CliffordCircuit, Circuit) compiled -> set_generator -> compiled again; forward/backward/set/use; copy of the compiled circuit regenerated and compiled while the original is re-read and recompiled; '
+                         'forward = reference with the new generator, backward = inverse, both round trips, whole Pauli group + signed states' % len(ri)))
+    qi = qformat_items()
+    out.append(Leg('qubit_containers', fn_qubit_formats, qi, chunk=4, exhaustive=False, supplementary=True, timeout=3000,
+                   bound='both packages, N=3,4: every ordered pair of %d rotation generators built with clifford_rotation_gate(generator, qubits) (%d pairs), qubits given as list / tuple / int64 array / int32 array / range / torch long tensor; '
+                         'CliffordCircuit and Circuit, plain and compiled: layer count, forward = reference, backward = inverse, both round trips' % (len(_QGENS), len(qi))))
     out.append(Leg('torch_layers', fn_torch_layers, tl, chunk=2, bound='torchclifford: ordered tuples (<=2) of disjoint base letters as one CliffordLayer'))
     return out
